@@ -90,3 +90,73 @@ func overlappedStreams(r *common.Run) {
 	}
 	r.Section(map[string]any{"family": "two overlapping stream digests, every interleaving at the Read calls", "executions": execs, "pairs": len(calls[0]) * len(calls[1])})
 }
+
+// Streams around the size of io.Copy's buffer (32 KiB), which the short-stream families never fill.
+type bigReader struct {
+	data    []byte
+	sizes   []int
+	eofWith bool
+	pos, k  int
+}
+
+func (b *bigReader) Read(p []byte) (int, error) {
+	if b.pos >= len(b.data) {
+		return 0, io.EOF
+	}
+	end := len(b.data)
+	if b.k < len(b.sizes) {
+		if e := b.pos + b.sizes[b.k]; e < end {
+			end = e
+		}
+		b.k++
+	}
+	n := copy(p, b.data[b.pos:end])
+	b.pos += n
+	if b.pos == len(b.data) && b.eofWith {
+		return n, io.EOF
+	}
+	return n, nil
+}
+
+func longDigestStreams(r *common.Run) {
+	var cases int64
+	for _, d := range digestFns {
+		if d.stream == nil {
+			continue
+		}
+		for _, n := range []int{32767, 32768, 32769, 65537} {
+			data := pattern(1, n)
+			want := oracleSum(d.newH, data)
+			readers := map[string]func() io.Reader{
+				"full reads":             func() io.Reader { return &bigReader{data: data} },
+				"first read 1 byte":      func() io.Reader { return &bigReader{data: data, sizes: []int{1}} },
+				"read boundary at 32768": func() io.Reader { return &bigReader{data: data, sizes: []int{32768}} },
+				"EOF with the last data": func() io.Reader { return &bigReader{data: data, eofWith: true} },
+			}
+			for name, mk := range readers {
+				cases++
+				r.Eval(1)
+				r.Nontrivial(1)
+				var got []byte
+				var err error
+				_, st, p := common.Catch(func() { got, err = d.stream(mk()) })
+				c := map[string]any{"function": d.name + "Stream", "length": n, "reader": name}
+				switch {
+				case p:
+					r.Violation("hashz."+d.name+"Stream|panic|long-stream", "panicked at "+common.PanicSite(st), map[string]any{"case": c, "stack": st}, "")
+				case err != nil:
+					r.Violation("hashz."+d.name+"Stream|error|long-stream", fmt.Sprintf("%sStream over %d bytes (%s) returned %v", d.name, n, name, err), c, "")
+				case string(got) != want:
+					r.Violation("hashz."+d.name+"Stream|wrong-digest|long-stream", fmt.Sprintf("%sStream over %d bytes (%s) = %s, want %s", d.name, n, name, got, want), c, "")
+				}
+			}
+			// the one-shot form on the same data, string and []byte
+			cases += 2
+			r.Eval(2)
+			if g1, g2 := d.b2s(data), d.s2s(string(data)); g1 != want || g2 != want {
+				r.Violation("hashz."+d.name+"ToString|wrong-digest|long-input", fmt.Sprintf("%sToString over %d bytes = %s / %s, want %s", d.name, n, g1, g2, want), map[string]any{"length": n}, "")
+			}
+		}
+	}
+	r.Section(map[string]any{"family": "digest streams and one-shot digests of 32767, 32768, 32769, 65537 bytes (io.Copy's buffer is 32 KiB)", "cases": cases})
+}
